@@ -1400,13 +1400,73 @@ def rule_nusetup(ctx):
     return res.finish(5)
 
 
+def rule_nufraction(ctx):
+    """One-class SVM starts from a feasible point: sum(alpha) = nu * l, with floor(nu * l) variables at their upper bound and
+    the *fractional remainder* nu * l - floor(nu * l) on one more.  The solver's steps keep the sum, so a starting point built
+    from the truncated count alone (`n` ones, the rest zero) solves the problem for nu' = floor(nu * l) / l: for nu * l < 1 a
+    model without any support vector."""
+    res = RuleResult("R-C13-nufraction", "a starting point that is laid out by a truncated `nu * l` also depends on nu itself (the fractional remainder is placed, not dropped)")
+    F = ctx.facts()
+    n = 0
+    TRUNC = ("to_usize", "floor", "trunc", "round", "ceil", "to_u32", "to_u64", "to_i32", "to_i64", "to_isize")
+    for fn in F.all_fns():
+        d = fn["d"]
+        if d["krate"] != "linfa_svm" or fn.get("exp") or "tests" in d["path"]:
+            continue
+        c = fn["crate"]
+        nu = [b for p_ in fn["params"] for b in pat_bindings(p_) if b.get("name") == "nu"]
+        if not nu:
+            continue
+        lets = [y for y in walk(fn["body"]) if y.get("k") == "LetStmt" and y.get("init") is not None and y["pat"].get("k") == "Bind"]
+
+        def truncates(e):
+            return any((z.get("k") == "MethodCall" and z["name"] in TRUNC) or (z.get("k") == "Cast" and (c.ty(z.get("t")) or "").strip() in ("usize", "u32", "u64", "i32", "i64", "isize")) for z in walk(e))
+        fl = set(b["local"] for b in nu)        # float quantities derived from nu
+        tr = set()                               # truncated counts derived from nu
+        changed = True
+        while changed:
+            changed = False
+            for y in lets:
+                l_ = y["pat"]["local"]
+                if l_ in fl or l_ in tr:
+                    continue
+                refs = set(z.get("local") for z in walk(y["init"]) if z.get("k") == "Path" and "local" in z)
+                if refs & fl and truncates(y["init"]):
+                    tr.add(l_)
+                    changed = True
+                elif refs & fl and not ("Vec<" in (c.ty(y["pat"].get("t")) or "")):
+                    fl.add(l_)
+                    changed = True
+        if not tr:
+            continue
+        # the starting point: a Vec local whose construction mentions the truncated count
+        for y in lets:
+            if "Vec<" not in (c.ty(y["pat"].get("t")) or ""):
+                continue
+            l_ = y["pat"]["local"]
+            parts = [y["init"]] + [st for st in walk(fn["body"]) if st.get("k") in ("MethodCall", "Assign", "AssignOp") and any(z.get("k") == "Path" and z.get("local") == l_ for z in walk(st.get("recv") or st.get("l") or {}))]
+            refs = set(z.get("local") for p_ in parts for z in walk(p_) if z.get("k") == "Path" and "local" in z)
+            if not (refs & tr):
+                continue
+            n += 1
+            key = fn_key(fn)
+            res.instance("%s : `%s` laid out by a truncated count" % (key, y["pat"].get("name")))
+            if refs & fl:
+                res.ok()
+            else:
+                res.violate("%s : fraction-of-nu-dropped:%s" % (key, y["pat"].get("name")), "`%s` is filled from the truncated count of `nu * l` alone: the fractional remainder is not placed on any variable, so sum(alpha) = floor(nu * l) and the solver - which keeps that sum - fits another nu (none at all for nu * l < 1)" % y["pat"].get("name"), fn_loc(fn, y.get("ln")))
+    if n < 1:
+        res.missing_anchor("a starting point in linfa-svm that is laid out by a truncated nu * l")
+    return res.finish(1)
+
+
 def rules(tier):
     from . import carry, c04
     from . import precision
     from . import inplace, blockmean
     return [blockmean.make_tile_rule("R-C13-tiles", lambda f: f["d"]["krate"] in ("linfa_svm", "linfa_kernel"), "linfa-svm and linfa-kernel (kernel matrix construction)"),
             inplace.make_rule("R-C13-overwrite", lambda f: f["d"]["krate"] == "linfa_svm", 2, "the support vector machines"),
-            rule_precombine, rule_permute, rule_nusetup, rule_reselect, rule_islinear, rule_decision, rule_swap, rule_bound, rule_space, rule_sv, rule_sib, rule_snapshot, rule_rho, rule_rescale, rule_memorder, rule_extent, rule_kernel,
+            rule_precombine, rule_permute, rule_nufraction, rule_nusetup, rule_reselect, rule_islinear, rule_decision, rule_swap, rule_bound, rule_space, rule_sv, rule_sib, rule_snapshot, rule_rho, rule_rescale, rule_memorder, rule_extent, rule_kernel,
             carry.make_clone_rule("R-C13-clone", {"linfa_svm", "linfa_kernel"}, 6), carry.make_setter_rule("R-C13-override", {"linfa_svm"}, 6), c04.make_carry_rule("R-C13-carry", {"SvmParams"}, 6),
             precision.make_rule("R-C13-precision", lambda f: f["d"]["krate"] in ("linfa_svm", "linfa_kernel"), 100, "linfa-svm and linfa-kernel"),
             carry.make_accessor_rule("R-C13-accessor", {"linfa_svm", "linfa_kernel"}, 3), carry.make_ctor_rule("R-C13-ctor", {"linfa_svm", "linfa_kernel"}, 3)]
